@@ -1,7 +1,7 @@
 (* C09 — Directory cache is transparent under concurrency, eviction and coalescing (statements; see also C08). *)
 From Coq Require Import NArith ZArith List.
 Import ListNotations.
-From PM Require Import Model.Server Model.ServerRun Proofs.Server Proofs.ServerExec Proofs.ServerSize Proofs.ServerCoalesce.
+From PM Require Import Model.Server Model.ServerRun Proofs.Server Proofs.ServerExec Proofs.ServerSize Proofs.ServerCoalesce Proofs.ServerCache.
 Open Scope N_scope.
 
 Section C09.
@@ -35,6 +35,22 @@ Qed.
 Theorem C09_coalesced : forall s, reach s ->
   NoDup (fetches s) /\ (forall k, In k (fetches s) -> In k (map fst (inflight s))) /\ (forall k, In k (map fst (respq s)) -> ~ In k (fetches s)).
 Proof. intros s R. exact (coalesced root_off_nz s R). Qed.
+
+(* the cache is a map and never competes with a fetch: in every reachable state a key (other than the tag-less slot a header fetch
+   pre-populates with the root directory) occurs at most once in the cache, a cached key has no fetch outstanding and no response queued -
+   so a hit never races with a fill of the same key, and what a purge removes cannot be resurrected by a shadowed older entry - and a
+   successful value never carries the refresh-required flag *)
+Theorem C09_cache_is_map : forall s, reach s ->
+  NoDup (filter np (map fst (cache s))) /\
+  (forall k, In k (map fst (cache s)) -> sane k -> ~ In k (map fst (inflight s)) /\ ~ In k (fetches s) /\ ~ In k (map fst (respq s))) /\
+  (forall k cv, (In (k, cv) (cache s) \/ In (k, cv) (respq s)) -> cv_ok cv = true -> cv_bad cv = false).
+Proof.
+  intros s R. pose proof (reach_ci root_off_nz s R) as [A B C]. pose proof (reach_co root_off_nz s R) as Hco.
+  split; [exact A|]. split; [|exact C].
+  intros k Hk Hs. assert (Hi: ~ In k (ikeys s)) by (apply B; assumption). split; [exact Hi|]. split.
+  - intro Hf. apply Hi. apply (E2 s Hco). exact Hf.
+  - intro Hr. destruct (E4 s Hco k Hr) as [H|H]; [exact (Hi H)|exact (Hs H)].
+Qed.
 End C09.
 
 (* the byte accounting of the cache (Model/ServerRun.v: eviction list with orphans, purge, move-to-front, eviction loop): whatever the
@@ -52,5 +68,6 @@ Proof. exact macro_below. Qed.
 Print Assumptions C09_transparent.
 Print Assumptions C09_no_cross_talk.
 Print Assumptions C09_coalesced.
+Print Assumptions C09_cache_is_map.
 Print Assumptions C09_size_bound.
 Print Assumptions C09_size_accounting.
